@@ -120,3 +120,39 @@ func HarnessC09NoWatcher() { c09scenario(2, false) }
 
 // HarnessC09Thorough: 4 events.
 func HarnessC09Thorough() { c09scenario(4, true) }
+
+// HarnessC09Race: EnableVerification racing with an in-flight update that makes the config
+// invalid. Whatever the order, a successful enable means the installed config was verified: after
+// everything settles the view is valid, and the returned config is valid.
+func HarnessC09Race() {
+	verifyLog = nil
+	def := hcfg{}
+	ws := &hwsrc{hsrc{name: "s0", init: hval{setA: true, a: 0}}}
+	p := Params[hcfg]{DelayInitialVerification: true}
+	ctx, cancel := context.WithCancel(context.Background())
+	defer cancel()
+	d, err := p.Config(ctx, &def, ws)
+	if err != nil {
+		zzverif.Fail("C04 Config failed with delayed verification")
+		return
+	}
+	bad := zzverif.Bool("bad")
+	done := make(chan struct{})
+	go func() {
+		defer close(done)
+		_ = ws.wa.ReportNewValue(ctx, mkValue(ws.t, hval{setA: true, a: 1, setBad: true, bad: bad}))
+	}()
+	cfg, ser, eerr := d.EnableVerification(ctx)
+	<-done
+	zzverif.Quiesce()
+	final, fser := d.ViewVersion()
+	if eerr == nil {
+		zzverif.Assert(cfg != nil && !cfg.Bad, "C09 EnableVerification succeeded but returned a config that fails Verify")
+		zzverif.Assert(!final.Bad, "C09 EnableVerification succeeded although the installed config fails Verify (an unverified config is visible with verification on)")
+		zzverif.Assert(ser.s <= fser.s, "C09 EnableVerification returned a serial from the future")
+	} else {
+		zzverif.Assert(errors.Is(eerr, errInvalid), "C09 EnableVerification returned an error that is not the Verify error")
+		zzverif.Assert(bad, "C09 EnableVerification failed although every config is valid")
+	}
+	zzverif.Reached("c09-race-end")
+}
